@@ -44,6 +44,7 @@ type world struct {
 	unknown   int            // tokens outside the universe seen (ranked 1000+k)
 	inc       []*incarnation // current incarnation per identity (1-based)
 	steps     int            // driver actions so far (each costs 1 ms of virtual time)
+	rejNext   [2]int         // reject window (first call, length) of the next incarnation started
 	blockFile bool           // while a dead incarnation is torn down no tokens file may change
 	fatal     string
 }
@@ -179,6 +180,9 @@ type recorder struct {
 	crashAt int    // 0 = never; j = die at the j-th write
 	side    string // "before": the callback has run, the commit is not applied; "after": applied, then dead
 	died    string // "", "mid" (inside a write, before commit), "after"
+	calls   int    // CAS calls so far (reject windows are counted in these)
+	rejFrom int    // 0 = none; the store rejects the calls rejFrom .. rejFrom+rejLen-1 of this incarnation
+	rejLen  int
 }
 
 var _ kv.Client = (*recorder)(nil)
@@ -214,6 +218,14 @@ func (r *recorder) CAS(ctx context.Context, key string, f func(in any) (out any,
 	defer w.mu.Unlock()
 	if r.dead {
 		return errDead
+	}
+	r.calls++
+	if r.rejFrom > 0 && r.calls == r.rejFrom && !r.reject {
+		r.reject = true // the window opens right before this call, wherever in a burst that is
+		w.log(ev{"k": "kv", "i": r.id, "now": w.now(), "ok": false})
+	} else if r.rejFrom > 0 && r.calls == r.rejFrom+r.rejLen && r.reject {
+		r.reject = false
+		w.log(ev{"k": "kv", "i": r.id, "now": w.now(), "ok": true})
 	}
 	if r.reject {
 		w.log(ev{"k": "casfail", "i": r.id, "now": w.now()})
